@@ -3,7 +3,7 @@ Shared by C04 (faithful counters/monitors/callbacks) and C05 (stopping disciplin
 the same histories, different active sub-checks.  The *case* is the header plus the
 list of operations; OPEN/APPLY/CLOSE are used both by the Hypothesis state machine
 and by replay (see vp.runner.trace_machine_base / fold_run)."""
-import math, builtins
+import os, math, builtins
 import numpy as np
 from hypothesis import strategies as st
 from hypothesis.stateful import rule, initialize, precondition
@@ -83,6 +83,10 @@ class SolverState(object):
             g, e = h['limits']
             self.solver.SetEvaluationLimits(g, e)
             self._model_limits(g, e, False)
+        self.dump_path = None; self.dump_bytes = None; self.dump_fresh = False; self.restarts = 0
+        if h.get('savefreq'):
+            self.dump_path = os.path.join(ctx.mkdtemp(), 'restart.pkl')
+            self.solver.SetSaveFrequency(h['savefreq'], self.dump_path)
 
     # -- helpers -------------------------------------------------------------
     def on(self, name):
@@ -273,7 +277,7 @@ class SolverState(object):
                         lambda: dict(where=where, msg=msg, termination_info=info))
 
     # -- operations ------------------------------------------------------------
-    def do_step(self, where='step'):
+    def do_step(self, where='step', kw=None):
         s = self.solver
         if self.iters() >= 1:
             self.resolve_pending()
@@ -284,8 +288,9 @@ class SolverState(object):
             # an iteration is about to start: limits must not have been reached
             self.expect(it0 - 1 < mi and calls0 < mf, 'C05.bounds',
                         lambda: dict(where=where, gens=it0 - 1, calls=calls0, maxiter=mi, maxfun=mf))
-        msg = s.Step(callback=self.cb)
+        msg = s.Step(callback=self.cb, **(kw or {}))
         self.resolve_pending()
+        self._look_at_dump()
         d_it = self.iters() - it0; d_calls = self.cost.ncalls() - calls0
         if pre:
             self.expect(d_it == 0 and d_calls == 0 and bool(msg), 'C05.no_start',
@@ -343,6 +348,7 @@ class SolverState(object):
                         lambda: dict(where=where, iterations=self.iters() - 1, maxiter=mi, solver=self.kind))
             return
         self.solves += 1
+        self._look_at_dump()
         if self.termname == 'collapse':
             # Solve applies collapses on its way (Collapse() installs constraints that fix parameters): the objective
             # changed somewhere inside this call, so monotonicity is judged from here on only
@@ -363,6 +369,14 @@ class SolverState(object):
             self.stopped_msg = msg
             self.check_stopped(where, msg)
 
+    def _look_at_dump(self):
+        """did the operation just performed write the periodic restart file?"""
+        self.dump_fresh = False
+        if self.dump_path and os.path.exists(self.dump_path):
+            b = open(self.dump_path, 'rb').read()
+            if b != self.dump_bytes:
+                self.dump_bytes = b; self.dump_fresh = True
+
     def redecorate(self):
         self.redecorated += 1
         self.objective_changes += 1
@@ -370,7 +384,48 @@ class SolverState(object):
 
     def apply(self, op):
         s = self.solver; k = op[0]
-        if k == 'step':
+        if k not in ('step', 'restart'):
+            self.dump_fresh = False
+        if k == 'step_kw':
+            # the documented per-Step keywords: the monitor is installed and the iteration runs in one call
+            kw = {}; spec = op[1]; m = None
+            if spec.get('evalmon'):
+                m = lab.make_monitor(spec['evalmon'], self.ctx); kw['EvaluationMonitor'] = m
+            if spec.get('stepmon'):
+                kw['StepMonitor'] = lab.make_monitor(spec['stepmon'], self.ctx)
+            self.do_step('step_kw', kw)
+            if m is not None and s._evalmon is m:      # (a Step that refuses to start does not look at its keywords)
+                if self.evalmon_from_start:
+                    self.evalmon = m                    # old contents are carried over: still the full record
+                else:
+                    self.evalmon = None
+            self.ctx.label('step-with-monitor-keywords')
+            self.invariants('step_kw')
+        elif k == 'restart':
+            # the solver is abandoned and a restored one takes its place: counters, monitors and callbacks go on
+            how = op[1]; s2 = None
+            if how == 'save':
+                from mystic.solvers import LoadSolver
+                path = os.path.join(self.ctx.mkdtemp(), 'saved.pkl')
+                s.SaveSolver(path); s2 = LoadSolver(path)
+            elif how == 'dill':
+                import dill
+                s2 = dill.loads(dill.dumps(s))
+            elif how == 'periodic' and self.dump_fresh:
+                from mystic.solvers import LoadSolver
+                path = os.path.join(self.ctx.mkdtemp(), 'dump.pkl')
+                with open(path, 'wb') as fh: fh.write(self.dump_bytes)
+                s2 = LoadSolver(path)
+            if s2 is None:
+                self.ctx.label('restart-skipped (no fresh periodic dump)')
+                return
+            self.solver = s = s2
+            if self.evalmon is not None:
+                self.evalmon = s._evalmon
+            self.restarts += 1
+            self.ctx.label('restart:' + how)
+            self.invariants('restart')
+        elif k == 'step':
             n = op[1] if len(op) > 1 else 1
             for i in range(n):
                 was_stopped = self.stopped_msg is not None
@@ -505,6 +560,7 @@ class SolverState(object):
         ctx = self.ctx
         ctx.label('solver:' + self.kind)
         if self.redecorated: ctx.label('redecorated')
+        if self.restarts: ctx.label('restarted')
         if self.continued: ctx.label('continued-after-stop')
         if self.solves: ctx.label('solve')
         if self.active == 'C02':
@@ -546,6 +602,8 @@ def headers(draw, tier, for_prop):
         h['limits'] = [draw(st.sampled_from([None, 0, 1, 2, 3, 5, 8])), draw(st.sampled_from([None, None, 0, 1, 5, 20, 60]))]
     else:
         h['limits'] = None
+    if for_prop in ('C04', 'C05') and draw(st.integers(0, 2)) == 0:
+        h['savefreq'] = draw(st.sampled_from([1, 1, 2, 3]))
     return h
 
 
@@ -611,6 +669,20 @@ def machine_factory(for_prop):
             @rule()
             def finalize(self):
                 self.do(['finalize'])
+
+            @rule(e=st.sampled_from([None, 'plain', 'verbose']), g=st.sampled_from([None, None, 'plain', 'logging']))
+            def step_kw(self, e, g):
+                if e or g:
+                    self.do(['step_kw', dict(evalmon=e, stepmon=g)])
+
+            @rule(how=st.sampled_from(['save', 'dill', 'periodic', 'periodic']))
+            def restart(self, how):
+                if how == 'periodic':
+                    if not (self.case and self.case.get('savefreq')):
+                        how = 'save'
+                    else:
+                        self.do(['step', 1])       # the restart file is as old as the last iteration that wrote it
+                self.do(['restart', how])
 
             if for_prop == 'C05':
                 @rule()
